@@ -189,3 +189,18 @@ pub enum MbTokenPrioI {
     #[regex("\\p{L}+", priority = 7)] Word,
     #[token(" ")] Sp,
 }
+
+// classes that cover every lead byte but exclude single non-ASCII characters (loops that must leave on those)
+#[derive(Logos, Debug, PartialEq, Clone)]
+pub enum NonSpace {
+    #[regex(r"\S+")] Word,
+    #[regex(r"\s+")] Space,
+}
+#[derive(Logos, Debug, PartialEq, Clone)]
+pub enum NoLineSep {
+    #[regex("\"[^\"\u{2028}\u{2029}]*\"")] Str,
+    #[regex("[^,\u{3001}\" ]+")] Field,
+    #[token(",")] Comma,
+    #[token("\u{3001}")] WideComma,
+    #[token(" ")] Sp,
+}
